@@ -129,6 +129,7 @@ def run(tier):
                     extra_cov={'distinct_nontrivial': len(set(json.dumps(e['reads'], sort_keys=True) for e in ps)),
                                'via': {v: sum(1 for e in ps if e['via'] == v) for v in ('api', 'api_hist', 'cli', 'cli_nosrc')},
                                'records': sum(len(e.get('records', [])) for e in ps),
+                               'molecules_written_through_write_pysam': sum(1 for e in ps if e.get('wp')),
                                'molecules_exceeding_max_associated_fragments': sum(1 for e in ps if e['mol']['TF'] > e['mol']['af']),
                                'molecules_split_into_several_records': sum(1 for e in ps if len(e.get('records', [])) > 1),
                                'partial': 'numeric call rule only within exact-integer bounds; phred values not covered'})
